@@ -1058,14 +1058,18 @@ def plan_c16(run_seed):
             if ints:
                 (t.choice(pref) if pref and t.chance(0.85) else t.choice(ints))[1] = t.choice([0, 0, -1, -2])
                 e["exec"] = False
-        if t.chance(0.1) and e["prog"]["maps"] and e["prog"].get("reg"):
+        if t.chance(0.15) and e["prog"]["maps"] and e["prog"].get("reg"):
             # a reversed alias: negative step, start at the last element - or one past it
             sl = [m for m in e["prog"]["maps"] if m["kind"] == "slice"]
             if sl:
                 m_ = t.choice(sl)
                 size_ = e["prog"]["reg"][1] if isinstance(e["prog"]["reg"][1], int) else 3
-                m_["start"], m_["stop"], m_["step"] = t.choice([size_ - 1, size_, size_ + 1]), 0, -t.choice([1, 1, 2])
+                m_["start"], m_["stop"], m_["step"] = t.choice([size_ - 1, size_, size_, size_ + 1]), 0, -t.choice([1, 1, 2])
                 e["exec"] = False
+                if not e.get("anon") and t.chance(0.7):
+                    # ... and its first element (possibly a qubit that does not exist) is used
+                    # by a gate that an execution reaches
+                    e["prog"]["body"].append({"k": "sub", "count": None, "body": [{"k": "gate", "name": "Rx", "args": [["item", m_["name"], 0], ["num", 1.0]]}]})
         if t.chance(0.15) and e["prog"]["macros"]:
             # a macro called with an argument of another kind than its body needs
             names = {m["name"] for m in e["prog"]["macros"]}
